@@ -1,8 +1,380 @@
-(** C10 stub *)
+(** C10 — Shape outlines approximate the ideal shape within the tolerance.
+    Statements only; every proof is [exact <lemma>] (lemmas in proofs/C10_proofs.v and, for the
+    certified numeric enclosures, proofs/C10_interval.v).
+    All theorems except the "verbatim" ones are about the real instance of model/ShapePaths.v, i.e.
+    about kurbo's code run in exact arithmetic; binary64 rounding is outside them (the laws in
+    harness/src/c10.rs test the floating-point outlines against independent oracles).
+    Vocabulary (spec/OutlineSpec.v): [closed_contour]/[open_contour] (one MoveTo, first; drawing
+    elements; a final ClosePath or none), [chain] (the pieces, each starting where the previous
+    ended), [on_outline] (a piece evaluated at some t in [0,1]), [within tol S P] (some point of S is
+    at distance <= tol from P), [on_circle], [on_ellipse], [on_arc], [on_affine_circle]. *)
 From Coq Require Import ZArith Reals Bool List.
-From KV Require Import Scalar RInst Geom Curves Rect Path ShapeTypes ShapePaths.
+From Coquelicot Require Import Coquelicot.
+From KV Require Import Scalar RInst Geom Curves Rect Affine Path ShapeTypes ShapePaths OutlineSpec
+  C10_interval C10_proofs.
 Import ListNotations.
-Theorem C10_rect_exact : forall (r : Rect R),
-  rect_path_elements r = [ MoveTo (mkPoint (rx0 r) (ry0 r)); LineTo (mkPoint (rx1 r) (ry0 r));
-    LineTo (mkPoint (rx1 r) (ry1 r)); LineTo (mkPoint (rx0 r) (ry1 r)); ClosePath ].
-Proof. reflexivity. Qed.
+Local Open Scope R_scope.
+
+(** * Pieces joined end to end; contours *)
+
+(** [chain] is what [Segments::next] (model/Path.v) yields for a one-contour element list: the
+    pieces joined end to end, plus - for a closed contour - the closing line unless the body
+    already returned to the start. *)
+Theorem C10_outline_chained_open : forall els (start : Point R) body,
+  open_contour els start body -> segments els = Some (chain start body).
+Proof. exact segments_open. Qed.
+
+Theorem C10_outline_chained_closed : forall els (start : Point R) body,
+  closed_contour els start body ->
+  segments els = Some (chain start body ++
+    (if pt_neb (contour_end start body) start then [SegLine (mkLine (contour_end start body) start)] else [])).
+Proof. exact segments_closed. Qed.
+
+(** Circle: one MoveTo, n >= 4 curves, ClosePath; the last curve ends exactly at the start
+    (the last (sin, cos) is forced to (0, 1)); piece i is the cubic from angle (i-1)*2pi/n to i*2pi/n. *)
+Theorem C10_outline_chained_circle : forall (c : Circle R) (tol : R),
+  exists n arm,
+    circle_params (ci_radius c) tol = (n, arm) /\ (4 <= n)%Z /\
+    let cx := px (ci_center c) in let cy := py (ci_center c) in
+    let r := ci_radius c in let dl := 2 * PI / IZR n in
+    let start := mkPoint (cx + r) cy in
+    let body := map (circ_el cx cy r arm dl) (zrange1 n) in
+    dl * IZR n = 2 * PI /\
+    closed_contour (circle_path_elements c tol) start body /\
+    length body = Z.to_nat n /\ forallb is_curve body = true /\
+    contour_end start body = start /\
+    chain start body = map (fun i => SegCubic (circ_cubic cx cy r arm dl i)) (zrange1 n).
+Proof. exact circle_contour. Qed.
+
+(** which n and arm length the code picks (the branch at 1/1.9608e-4, the sixth root, the ceiling) *)
+Theorem C10_circle_piece_count : forall r tol : R,
+  let se := Rabs r / tol in
+  exists n arm, circle_params r tol = (n, arm) /\
+    ((se < 1 / (19608 / 100000000) /\ n = 4%Z /\ arm = arm4) \/
+     (1 / (19608 / 100000000) <= se /\ (5 <= n)%Z /\ arm = 4/3 * tan (PI / 2 / IZR n) /\
+      11163 / 10000 * se <= IZR n ^ 6)).
+Proof. exact circle_params_spec. Qed.
+
+(** Arc: MoveTo at the start sample, then n curves; the contour ends at the sample of start + sweep *)
+Theorem C10_outline_chained_arc : forall (a : Arc R) (tol : R),
+  let start := pt_add_v (arc_center a) (sample_ellipse (arc_radii a) (arc_x_rotation a) (arc_start_angle a)) in
+  let body := arc_append_elements a tol in
+  open_contour (arc_path_elements a tol) start body /\
+  forallb is_curve body = true /\
+  length body = Z.to_nat (ap_n (arc_params a tol)) /\
+  contour_end start body =
+    pt_add_v (arc_center a) (sample_ellipse (arc_radii a) (arc_x_rotation a) (arc_start_angle a + arc_sweep_angle a)).
+Proof. exact arc_contour. Qed.
+
+(** Ellipse: the full turn of its SVD arc; no ClosePath, but the contour returns to its start *)
+Theorem C10_outline_closed_ellipse : forall (e : Ellipse R) (tol : R),
+  let a := ellipse_as_arc e in
+  let start := pt_add_v (arc_center a) (sample_ellipse (arc_radii a) (arc_x_rotation a) 0) in
+  let body := arc_append_elements a tol in
+  open_contour (ellipse_path_elements e tol) start body /\
+  forallb is_curve body = true /\ (1 <= length body)%nat /\
+  contour_end start body = start.
+Proof. exact ellipse_contour. Qed.
+
+(** CircleSegment: radial line, outer arc, radial line, reversed inner arc; returns to its start *)
+Theorem C10_outline_closed_circle_segment : forall (s : CircleSegment R) (tol : R),
+  let c := cs_center s in
+  let st := cs_start_angle s in let sw := cs_sweep_angle s in
+  let start := point_on_circle c (cs_inner_radius s) st in
+  let l1 := point_on_circle c (cs_outer_radius s) st in
+  let l2 := point_on_circle c (cs_inner_radius s) (st + sw) in
+  let body := LineTo l1 :: arc_append_elements (cs_outer_arc s) tol ++ LineTo l2 :: arc_append_elements (cs_inner_arc s) tol in
+  open_contour (circle_segment_path_elements s tol) start body /\
+  contour_end l1 (arc_append_elements (cs_outer_arc s) tol) = point_on_circle c (cs_outer_radius s) (st + sw) /\
+  contour_end start body = start.
+Proof. exact circle_segment_contour. Qed.
+
+(** RoundedRect: closed by ClosePath; every corner arc has at least one piece; the body ends on the
+    left edge (x0, y1 - bl), from where ClosePath runs the left edge back to the start (x0, y0 + tl) *)
+Theorem C10_outline_closed_rounded_rect : forall (rr : RoundedRect R) (tol : R),
+  closed_contour (rounded_rect_path_elements rr tol) (rr_m0 rr) (rr_body rr tol) /\
+  (1 <= length (rr_E0 rr tol))%nat /\ (1 <= length (rr_E1 rr tol))%nat /\
+  (1 <= length (rr_E2 rr tol))%nat /\ (1 <= length (rr_E3 rr tol))%nat /\
+  contour_end (rr_m0 rr) (rr_body rr tol) = rr_q3 rr.
+Proof. exact rounded_rect_contour. Qed.
+
+(** * The outline traverses the shape exactly once *)
+
+(** Arc: n >= 1 pieces for a non-zero sweep (none for a zero sweep), n * angle_step = sweep, piece i
+    (0-based) spans the eccentric angles start + i*step .. start + (i+1)*step; the arm length is
+    (4/3) tan(step/4) with the sign of the sweep. *)
+Theorem C10_outline_once_arc : forall (a : Arc R) (tol : R),
+  let p := arc_params a tol in
+  let n := ap_n p in let step := ap_angle_step p in
+  ((0 <= n)%Z /\ (arc_sweep_angle a = 0 -> n = 0%Z) /\ (arc_sweep_angle a <> 0 -> (1 <= n)%Z) /\
+   IZR n * step = arc_sweep_angle a /\ ap_arm_len p = 4 / 3 * tan (step / 4)) /\
+  arc_append_elements a tol =
+  map (arc_el (px (arc_center a)) (py (arc_center a)) (vx (arc_radii a)) (vy (arc_radii a))
+              (arc_x_rotation a) (ap_arm_len p) step (arc_start_angle a))
+      (seq 0 (Z.to_nat n)).
+Proof.
+  intros a tol. split.
+  - destruct (arc_params_spec a tol) as (H0 & H1 & H2 & H3 & H4 & _). repeat split; assumption.
+  - exact (arc_append_ideal a tol).
+Qed.
+
+(** (for the circle the same facts are part of [C10_outline_chained_circle]: piece i is
+    [circ_cubic .. i], from angle (i-1) dl to i dl, with n dl = 2 pi) *)
+
+(** * End points on the shape, control arms tangent *)
+Theorem C10_piece_endpoints_on_shape_circle : forall cx cy r dl i,
+  on_circle (mkPoint cx cy) r (circ_pt cx cy r dl i).
+Proof. exact circ_pt_on_circle. Qed.
+
+Theorem C10_piece_tangent_circle : forall cx cy r k dl i,
+  let p0 := circ_pt cx cy r dl (i - 1) in let p1 := circ_p1 cx cy r k dl i in
+  let p2 := circ_p2 cx cy r k dl i in let p3 := circ_pt cx cy r dl i in
+  (px p1 - px p0) * (px p0 - cx) + (py p1 - py p0) * (py p0 - cy) = 0 /\
+  (px p2 - px p3) * (px p3 - cx) + (py p2 - py p3) * (py p3 - cy) = 0.
+Proof. exact circ_arms_tangent. Qed.
+
+(** arc: on-curve points are on the ellipse; both control arms are [arm] times the tangent of the
+    parametrisation ([ellipse_tangent] is the derivative of [sample_ellipse] in the angle) *)
+Theorem C10_piece_endpoints_and_tangent_arc : forall cx cy rx ry rot arm step a0 (i : nat),
+  let c := mkPoint cx cy in let radii := mkVec2 rx ry in
+  let th0 := a0 + INR i * step in let th1 := a0 + INR (S i) * step in
+  on_ellipse c radii rot (arc_pt cx cy rx ry rot step a0 i) /\
+  pt_sub (arc_p1 cx cy rx ry rot arm step a0 i) (arc_pt cx cy rx ry rot step a0 i)
+    = s_scale_v arm (ellipse_tangent radii rot th0) /\
+  pt_sub (arc_pt cx cy rx ry rot step a0 (S i)) (arc_p2 cx cy rx ry rot arm step a0 i)
+    = s_scale_v arm (ellipse_tangent radii rot th1).
+Proof. exact arc_pieces_on_shape. Qed.
+
+Theorem C10_ellipse_tangent_is_derivative : forall radii rot th,
+  is_derive (fun u => vx (sample_ellipse radii rot u)) th (vx (ellipse_tangent radii rot th)) /\
+  is_derive (fun u => vy (sample_ellipse radii rot u)) th (vy (ellipse_tangent radii rot th)).
+Proof. exact ellipse_tangent_is_derivative. Qed.
+
+(** * Polygons and Beziers are reproduced verbatim — for every scalar type, so also on binary64 *)
+Theorem C10_polygon_shapes_exact : forall (T : Type) (S : Scalar T),
+  (forall l : Line T, line_path_elements l = [MoveTo (l0 l); LineTo (l1 l)]) /\
+  (forall r : Rect T, rect_path_elements r =
+     [MoveTo (mkPoint (rx0 r) (ry0 r)); LineTo (mkPoint (rx1 r) (ry0 r));
+      LineTo (mkPoint (rx1 r) (ry1 r)); LineTo (mkPoint (rx0 r) (ry1 r)); ClosePath]) /\
+  (forall t : Triangle T, triangle_path_elements t = [MoveTo (tri_a t); LineTo (tri_b t); LineTo (tri_c t); ClosePath]) /\
+  (forall q : QuadBez T, quad_path_elements q = [MoveTo (q0 q); QuadTo (q1 q) (q2 q)]) /\
+  (forall c : CubicBez T, cubic_path_elements c = [MoveTo (c0 c); CurveTo (c1 c) (c2 c) (c3 c)]) /\
+  (forall s : PathSeg T, seg_path_elements s =
+     match s with
+     | SegLine l => [MoveTo (l0 l); LineTo (l1 l)]
+     | SegQuad q => [MoveTo (q0 q); QuadTo (q1 q) (q2 q)]
+     | SegCubic c => [MoveTo (c0 c); CurveTo (c1 c) (c2 c) (c3 c)]
+     end).
+Proof. intros T S. repeat split; intros []; reflexivity. Qed.
+
+(** [path_segments] of a Rect: its four edges in order (three when it is flat, y0 = y1: the closing
+    edge would have zero length and [Segments] omits it) *)
+Theorem C10_rect_path_segments : forall r : Rect R,
+  let p00 := mkPoint (rx0 r) (ry0 r) in let p10 := mkPoint (rx1 r) (ry0 r) in
+  let p11 := mkPoint (rx1 r) (ry1 r) in let p01 := mkPoint (rx0 r) (ry1 r) in
+  path_segments_of (rect_path_elements r) =
+  Some ([SegLine (mkLine p00 p10); SegLine (mkLine p10 p11); SegLine (mkLine p11 p01)]
+        ++ (if Reqb (ry0 r) (ry1 r) then [] else [SegLine (mkLine p01 p00)])).
+Proof. exact rect_segments_exact. Qed.
+
+(** * Rounded rectangle: order of corners and edges (every scalar type) *)
+Theorem C10_rounded_rect_corner_order : forall (T : Type) (S : Scalar T) (rr : RoundedRect T) (tol : T),
+  let r := rr_rect rr in let q := rr_radii rr in
+  rounded_rect_path_elements rr tol =
+  MoveTo (mkPoint (rx0 r) (fadd (ry0 r) (r_top_left q)))
+  :: arc_append_elements (rr_corner_arc 2 (mkPoint (fadd (rx0 r) (r_top_left q)) (fadd (ry0 r) (r_top_left q))) (r_top_left q)) tol
+  ++ LineTo (mkPoint (fsub (rx1 r) (r_top_right q)) (ry0 r))
+  :: arc_append_elements (rr_corner_arc 3 (mkPoint (fsub (rx1 r) (r_top_right q)) (fadd (ry0 r) (r_top_right q))) (r_top_right q)) tol
+  ++ LineTo (mkPoint (rx1 r) (fsub (ry1 r) (r_bottom_right q)))
+  :: arc_append_elements (rr_corner_arc 0 (mkPoint (fsub (rx1 r) (r_bottom_right q)) (fsub (ry1 r) (r_bottom_right q))) (r_bottom_right q)) tol
+  ++ LineTo (mkPoint (fadd (rx0 r) (r_bottom_left q)) (ry1 r))
+  :: arc_append_elements (rr_corner_arc 1 (mkPoint (fadd (rx0 r) (r_bottom_left q)) (fsub (ry1 r) (r_bottom_left q))) (r_bottom_left q)) tol
+  ++ [ClosePath].
+Proof. intros T S. exact (@rounded_rect_elements T S). Qed.
+
+(** each corner arc starts where the previous edge ended and ends where the next edge starts *)
+Theorem C10_rounded_rect_corner_joins : forall (rr : RoundedRect R) (tol : R),
+  contour_end (rr_m0 rr) (rr_E0 rr tol) = rr_q0 rr /\ contour_end (rr_p1 rr) (rr_E1 rr tol) = rr_q1 rr /\
+  contour_end (rr_p2 rr) (rr_E2 rr tol) = rr_q2 rr /\ contour_end (rr_p3 rr) (rr_E3 rr tol) = rr_q3 rr.
+Proof. exact rr_corner_ends. Qed.
+
+(** [RoundedRect::from_rect] clamps: the radii it stores are non-negative *)
+Theorem C10_rounded_rect_radii_nonneg : forall (rect : Rect R) (radii : RoundedRectRadii R),
+  let q := rr_radii (rounded_rect_from_rect rect radii) in
+  0 <= r_top_left q /\ 0 <= r_top_right q /\ 0 <= r_bottom_right q /\ 0 <= r_bottom_left q.
+Proof. exact from_rect_radii_nonneg. Qed.
+
+(** * The tolerance claim *)
+
+(** the four-piece branch: kurbo's arm 0.551915024494 keeps the unit quarter piece within 1.9608e-4
+    of the unit circle (certified enclosure by coq-interval) *)
+Theorem C10_circle4_radial_error : forall t, 0 <= t <= 1 ->
+  Rabs (sqrt (unit_x arm4 0 1 t ^ 2 + unit_y arm4 0 1 t ^ 2) - 1) <= 19608 / 100000000.
+Proof. exact circle4_radial_error. Qed.
+
+(** fixed piece counts, each by its own certified enclosure: the unit piece of angle 2pi/N with arm
+    (4/3) tan(pi/(2N)) is within 1.1163 / N^6 of the unit circle *)
+Theorem C10_circle_n_radial_error : forall t, 0 <= t <= 1 ->
+  unit_radial_error 5 t <= 11163/10000 / 5^6 /\ unit_radial_error 6 t <= 11163/10000 / 6^6 /\
+  unit_radial_error 7 t <= 11163/10000 / 7^6 /\ unit_radial_error 8 t <= 11163/10000 / 8^6 /\
+  unit_radial_error 9 t <= 11163/10000 / 9^6 /\ unit_radial_error 10 t <= 11163/10000 / 10^6 /\
+  unit_radial_error 11 t <= 11163/10000 / 11^6 /\ unit_radial_error 12 t <= 11163/10000 / 12^6 /\
+  unit_radial_error 13 t <= 11163/10000 / 13^6 /\ unit_radial_error 14 t <= 11163/10000 / 14^6 /\
+  unit_radial_error 15 t <= 11163/10000 / 15^6 /\ unit_radial_error 16 t <= 11163/10000 / 16^6 /\
+  unit_radial_error 20 t <= 11163/10000 / 20^6 /\ unit_radial_error 24 t <= 11163/10000 / 24^6 /\
+  unit_radial_error 32 t <= 11163/10000 / 32^6 /\ unit_radial_error 48 t <= 11163/10000 / 48^6 /\
+  unit_radial_error 64 t <= 11163/10000 / 64^6 /\ unit_radial_error 100 t <= 11163/10000 / 100^6 /\
+  unit_radial_error 150 t <= 11163/10000 / 150^6.
+Proof.
+  intros t Ht. repeat split;
+  [ exact (circle_5_radial_error t Ht) | exact (circle_6_radial_error t Ht) | exact (circle_7_radial_error t Ht)
+  | exact (circle_8_radial_error t Ht) | exact (circle_9_radial_error t Ht) | exact (circle_10_radial_error t Ht)
+  | exact (circle_11_radial_error t Ht) | exact (circle_12_radial_error t Ht) | exact (circle_13_radial_error t Ht)
+  | exact (circle_14_radial_error t Ht) | exact (circle_15_radial_error t Ht) | exact (circle_16_radial_error t Ht)
+  | exact (circle_20_radial_error t Ht) | exact (circle_24_radial_error t Ht) | exact (circle_32_radial_error t Ht)
+  | exact (circle_48_radial_error t Ht) | exact (circle_64_radial_error t Ht) | exact (circle_100_radial_error t Ht)
+  | exact (circle_150_radial_error t Ht) ].
+Qed.
+
+(** EVERY piece angle: the standard piece of angle 4x (|x| <= 0.3927, which covers every angle
+    2pi/n_err with n_err >= 3.999999) with arm (4/3) tan x lies outside the unit circle and within
+    Kc x^6 = 1.1163 (2x/pi)^6 of it. In closed form: ||B(t)||^2 - 1 = 64 tan^6 x / (1 + tan^2 x)^2 * g(t)^2,
+    g = t (t - 1/2)(t - 1), g^2 <= 1/432; the constant 1.1163 then needs one certified inequality
+    ([trig_bound], whose smallest relative margin, at x = pi/8, is 1.1e-5). *)
+Theorem C10_std_piece_bound : forall x t, 0 <= t <= 1 -> Rabs x <= 3927/10000 ->
+  let k := 4/3 * tan x in
+  let W := unit_x k (cos (4*x)) (sin (4*x)) t ^ 2 + unit_y k (cos (4*x)) (sin (4*x)) t ^ 2 in
+  1 <= W /\ 1 <= sqrt W <= 1 + Kc * x ^ 6.
+Proof. exact std_piece_bound. Qed.
+
+(** Circle, every radius and every tolerance > 0 (so every n the code can pick): each point of the
+    outline is within tol of the ideal circle. *)
+Theorem C10_circle_within_tolerance : forall (c : Circle R) (tol : R) start body P,
+  0 < tol ->
+  closed_contour (circle_path_elements c tol) start body ->
+  on_outline start body P ->
+  Rabs (dist P (ci_center c) - Rabs (ci_radius c)) <= tol.
+Proof. exact circle_within_tolerance. Qed.
+
+(** Arc, every non-negative radii, rotation, start, sweep and tolerance > 0: each point of the outline is
+    within tol of a point of the ideal ARC (eccentric angle between start and start + sweep). *)
+Theorem C10_arc_within_tolerance : forall (a : Arc R) (tol : R) P,
+  0 < tol -> 0 <= vx (arc_radii a) -> 0 <= vy (arc_radii a) ->
+  on_outline (pt_add_v (arc_center a) (sample_ellipse (arc_radii a) (arc_x_rotation a) (arc_start_angle a)))
+             (arc_append_elements a tol) P ->
+  within tol (on_arc (arc_center a) (arc_radii a) (arc_x_rotation a) (arc_start_angle a) (arc_sweep_angle a)) P.
+Proof. exact arc_within_tolerance_of_arc. Qed.
+
+(** Ellipse: within tol of the ellipse of its SVD radii and rotation ... *)
+Theorem C10_ellipse_within_tolerance : forall (e : Ellipse R) (tol : R) P,
+  0 < tol ->
+  let a := ellipse_as_arc e in
+  on_outline (pt_add_v (arc_center a) (sample_ellipse (arc_radii a) (arc_x_rotation a) 0))
+             (arc_append_elements a tol) P ->
+  within tol (on_ellipse (ellipse_center e) (fst (svd_stable (el_inner e))) (snd (svd_stable (el_inner e)))) P.
+Proof. exact ellipse_within_tolerance. Qed.
+
+(** ... which, for an invertible map, is the image of the unit circle under the stored affine map
+    (R(theta) diag(rx^2, ry^2) R(theta)^T = A A^T) *)
+Theorem C10_ellipse_svd_is_affine_image : forall a b c d e f Q, a * d - b * c <> 0 ->
+  let s := svd_stable (mkAffine a b c d e f) in
+  on_ellipse (mkPoint e f) (fst s) (snd s) Q <-> on_affine_circle a b c d e f Q.
+Proof. exact ellipse_svd_same_set. Qed.
+
+Theorem C10_ellipse_within_tolerance_of_affine_image : forall a b c d e f (tol : R) P,
+  0 < tol -> a * d - b * c <> 0 ->
+  let el := mkEllipse (mkAffine a b c d e f) in
+  let arc := ellipse_as_arc el in
+  on_outline (pt_add_v (arc_center arc) (sample_ellipse (arc_radii arc) (arc_x_rotation arc) 0))
+             (arc_append_elements arc tol) P ->
+  within tol (on_affine_circle a b c d e f) P.
+Proof. exact ellipse_within_tolerance_of_affine_image. Qed.
+
+(** the repaired minor-radius formula (proposed_fixes/C10-svd-minor-radius.diff) is the pinned one over
+    the reals: the defect it repairs is purely one of binary64 cancellation *)
+Theorem C10_svd_repair_is_neutral_over_reals : forall a b c d e f : R,
+  svd_stable (mkAffine a b c d e f) = aff_svd (mkAffine a b c d e f).
+Proof. exact svd_stable_eq_aff_svd. Qed.
+
+(** RoundedRect: each outline point is within tol of its own corner's ideal quarter arc, or exactly on
+    the ideal straight edge between two corners (the fourth, left, edge is drawn by ClosePath) *)
+Theorem C10_rounded_rect_within_tolerance : forall (rr : RoundedRect R) (tol : R) P,
+  let tl := r_top_left (rr_radii rr) in let tr := r_top_right (rr_radii rr) in
+  let br := r_bottom_right (rr_radii rr) in let bl := r_bottom_left (rr_radii rr) in
+  0 < tol -> 0 <= tl -> 0 <= tr -> 0 <= br -> 0 <= bl ->
+  on_outline (rr_m0 rr) (rr_body rr tol) P ->
+  within tol (on_arc (rr_c0 rr) (mkVec2 tl tl) 0 (PI / 2 * 2) (PI / 2)) P \/ on_segment (rr_q0 rr) (rr_p1 rr) P \/
+  within tol (on_arc (rr_c1 rr) (mkVec2 tr tr) 0 (PI / 2 * 3) (PI / 2)) P \/ on_segment (rr_q1 rr) (rr_p2 rr) P \/
+  within tol (on_arc (rr_c2 rr) (mkVec2 br br) 0 (PI / 2 * 0) (PI / 2)) P \/ on_segment (rr_q2 rr) (rr_p3 rr) P \/
+  within tol (on_arc (rr_c3 rr) (mkVec2 bl bl) 0 (PI / 2 * 1) (PI / 2)) P.
+Proof. exact rounded_rect_within_tolerance. Qed.
+
+(** CircleSegment: exactly on a radial line, or within tol of the outer / the reversed inner ideal arc *)
+Theorem C10_circle_segment_within_tolerance : forall (s : CircleSegment R) (tol : R) P,
+  0 < tol -> 0 <= cs_outer_radius s -> 0 <= cs_inner_radius s ->
+  let c := cs_center s in
+  let st := cs_start_angle s in let sw := cs_sweep_angle s in
+  let ro := cs_outer_radius s in let ri := cs_inner_radius s in
+  let start := point_on_circle c ri st in
+  let body := LineTo (point_on_circle c ro st) :: arc_append_elements (cs_outer_arc s) tol
+              ++ LineTo (point_on_circle c ri (st + sw)) :: arc_append_elements (cs_inner_arc s) tol in
+  on_outline start body P ->
+  on_segment (point_on_circle c ri st) (point_on_circle c ro st) P \/
+  within tol (on_arc c (mkVec2 ro ro) 0 st sw) P \/
+  on_segment (point_on_circle c ro (st + sw)) (point_on_circle c ri (st + sw)) P \/
+  within tol (on_arc c (mkVec2 ri ri) 0 (st + sw) (- sw)) P.
+Proof. exact circle_segment_within_tolerance. Qed.
+
+(** * The whole property at the real level *)
+
+(** [C10_full]: the property text, for the code run in exact arithmetic, with the quantifier's
+    guards (tolerance > 0, non-negative radii). Proved below. What is NOT covered by any theorem
+    here: binary64 rounding (including the cancellation in [Affine::svd], finding
+    C10-svd-minor-radius), the degenerate (non-invertible) ellipse's relation to its affine image,
+    and "exactly once" in a topological sense (it is stated as the angular tiling of
+    [C10_outline_once_arc] / [C10_outline_chained_circle]). *)
+Definition C10_full : Prop :=
+  (forall (c : Circle R) (tol : R) start body P, 0 < tol ->
+     closed_contour (circle_path_elements c tol) start body -> on_outline start body P ->
+     Rabs (dist P (ci_center c) - Rabs (ci_radius c)) <= tol) /\
+  (forall (a : Arc R) (tol : R) P, 0 < tol -> 0 <= vx (arc_radii a) -> 0 <= vy (arc_radii a) ->
+     on_outline (pt_add_v (arc_center a) (sample_ellipse (arc_radii a) (arc_x_rotation a) (arc_start_angle a)))
+                (arc_append_elements a tol) P ->
+     within tol (on_arc (arc_center a) (arc_radii a) (arc_x_rotation a) (arc_start_angle a) (arc_sweep_angle a)) P) /\
+  (forall a b c d e f (tol : R) P, 0 < tol -> a * d - b * c <> 0 ->
+     let arc := ellipse_as_arc (mkEllipse (mkAffine a b c d e f)) in
+     on_outline (pt_add_v (arc_center arc) (sample_ellipse (arc_radii arc) (arc_x_rotation arc) 0))
+                (arc_append_elements arc tol) P ->
+     within tol (on_affine_circle a b c d e f) P) /\
+  (forall (e : Ellipse R) (tol : R),
+     let a := ellipse_as_arc e in
+     let start := pt_add_v (arc_center a) (sample_ellipse (arc_radii a) (arc_x_rotation a) 0) in
+     contour_end start (arc_append_elements a tol) = start) /\
+  (forall (rr : RoundedRect R) (tol : R),
+     closed_contour (rounded_rect_path_elements rr tol) (rr_m0 rr) (rr_body rr tol)) /\
+  (forall (s : CircleSegment R) (tol : R),
+     let start := point_on_circle (cs_center s) (cs_inner_radius s) (cs_start_angle s) in
+     exists body, open_contour (circle_segment_path_elements s tol) start body /\ contour_end start body = start).
+
+Theorem C10_full_at_the_real_level : C10_full.
+Proof.
+  split; [exact circle_within_tolerance|]. split; [exact arc_within_tolerance_of_arc|].
+  split; [exact ellipse_within_tolerance_of_affine_image|].
+  split; [intros e tol; exact (proj2 (proj2 (proj2 (ellipse_contour e tol))))|].
+  split; [intros rr tol; exact (proj1 (rounded_rect_contour rr tol))|].
+  intros s tol start. eexists. destruct (circle_segment_contour s tol) as (H1 & _ & H3). split; [exact H1 | exact H3].
+Qed.
+
+(** * Non-vacuity *)
+Example C10_ex_branch4 : circle_params 1 (1 / 10) = (4%Z, arm4).
+Proof. exact circle_example_4. Qed.
+Example C10_ex_eleven_pieces : fst (circle_params 1000 (1 / 1000)) = 11%Z.
+Proof. exact circle_example_11. Qed.
+Example C10_ex_circle_outline_inhabited : forall (c : Circle R) (tol : R),
+  exists start body P, closed_contour (circle_path_elements c tol) start body /\ on_outline start body P.
+Proof. exact circle_outline_nonempty. Qed.
+Example C10_ex_arc_outline_inhabited :
+  let a := mkArc (mkPoint 0 0) (mkVec2 2 1) 0 1 0 in
+  exists P, on_outline (pt_add_v (arc_center a) (sample_ellipse (arc_radii a) (arc_x_rotation a) (arc_start_angle a)))
+                       (arc_append_elements a (1 / 100)) P.
+Proof. exact arc_example_nonempty. Qed.
